@@ -40,6 +40,7 @@ type hostileSpec struct {
 	Replies    string   `json:"replies,omitempty"`     // hex; sent instead of answering requests
 	ModSubdir  string   `json:"mod_subdir,omitempty"`  // daemon: rsync://host/mod/<subdir>
 	Seed       int32    `json:"seed"`
+	ReadOnly   bool     `json:"read_only,omitempty"` // daemon: the module is not writable
 }
 
 func unhex(s string) []byte { b, _ := hex.DecodeString(s); return b }
@@ -287,7 +288,7 @@ func runHostile(sp sessionSpec, res *sessionResult) error {
 		}
 		return err
 	case "daemon":
-		srv, err := rsyncd.NewServer([]rsyncd.Module{{Name: "mod", Path: sp.Dest, Writable: true}}, rsyncd.DontRestrict(), rsyncd.WithStderr(&stderr))
+		srv, err := rsyncd.NewServer([]rsyncd.Module{{Name: "mod", Path: sp.Dest, Writable: !h.ReadOnly}}, rsyncd.DontRestrict(), rsyncd.WithStderr(&stderr))
 		if err != nil {
 			return err
 		}
